@@ -91,14 +91,10 @@ func (w *World) prevFor(ver uint8) []string {
 
 // GradeOPR runs the grading library on OPR entries exactly as posted.
 func GradeOPR(ver uint8, h uint32, prev []string, ents []Entry) (grader.GradedBlock, error) {
-	var pw []string
-	for _, s := range prev {
-		if s != "" {
-			pw = prev
-			break
-		}
-	}
-	g, err := grader.NewGrader(ver, int32(h), pw)
+	// prev is what the protocol calls the previous winners: the short-hash list of the most recent
+	// block that had an OPR entry block (all blank while no block has had winners yet), nil before the
+	// first such block
+	g, err := grader.NewGrader(ver, int32(h), prev)
 	if err != nil {
 		return nil, err
 	}
@@ -137,16 +133,7 @@ func (w *World) Commit(s BlockSpec) *Block {
 		ver := w.Eras.OPRVersion(s.Height)
 		gb, err := GradeOPR(ver, s.Height, w.PrevWinners, s.OPR)
 		if err == nil && gb != nil {
-			sh := gb.WinnersShortHashes()
-			ok := false
-			for _, x := range sh {
-				if x != "" {
-					ok = true
-				}
-			}
-			if ok {
-				w.PrevWinners = append([]string{}, sh...)
-			}
+			w.PrevWinners = append([]string{}, gb.WinnersShortHashes()...)
 		}
 	}
 	return b
